@@ -186,18 +186,7 @@ class C12(PropBase):
     # ------------------------------------------------------------------ canonical forms
     @staticmethod
     def _canon(case, ans):
-        if ans.startswith("P;;"):
-            return "P;;"
-        if not case.startswith("1 "):
-            return ans
-        f = ans.split(";")
-        if len(f) != 7:
-            return ans
-        log = "." .join(sorted(f[1].split("."))) if f[1] != "-" else "-"
-        # wake-driven: the poll order is decided by the wakers, so only schedule-independent
-        # observables are compared: which keys were fetched, results, counters, stats keys
-        stats = ",".join(e.split(":")[0] for e in f[5].split(",")) if f[5] != "-" else "-"
-        return ";".join([f[0], log, f[3], f[4], stats])
+        return "P;;" if ans.startswith("P;;") else ans
 
     def canon_model(self, case, ans):
         return self._canon(case, ans)
@@ -263,7 +252,7 @@ class C12(PropBase):
             return "bad pending stats " + pend
         if rq != len(asked) or pr != len(asked):
             return "pending stats ended requested=%d processed=%d, distinct modules asked for=%d" % (rq, pr, len(asked))
-        if mid != "-":
+        if mode == 0 and mid != "-":
             mrq, mpr, mdone = [int(x) for x in mid.split("/")]
             if not (mpr <= mrq <= len(asked)):
                 return "pending stats mid-run requested=%d processed=%d exceed distinct modules %d" % (mrq, mpr, len(asked))
